@@ -66,7 +66,9 @@ def main_(seed, nscen):
         assert version == 1
         o = dict(zip(["data", "plaintext_hash_tree", "crypttext_hash_tree", "block_hashes", "share_hashes", "uri_extension"], struct.unpack(">6L", ref[0x0c:0x24])))
         return {"version": (0, 4), "offsets": (0x0c, 0x10), "offsets2": (0x14, 0x24), "data": (o["data"], o["plaintext_hash_tree"]), "crypttext_hash_tree": (o["crypttext_hash_tree"], o["block_hashes"]),
-                "block_hashes": (o["block_hashes"], o["share_hashes"]), "share_hashes": (o["share_hashes"], o["uri_extension"]), "uri_extension": (o["uri_extension"], len(ref))}
+                "block_hashes": (o["block_hashes"], o["share_hashes"]), "share_hashes": (o["share_hashes"], o["uri_extension"]),
+                # (not the 4-byte length prefix of the extension block: a bit flip that makes it LARGER is harmless -- the read is clipped at the end of the share and the block still hashes to the cap)
+                "uri_extension": (o["uri_extension"] + 4, len(ref))}
 
     def corrupt_file(path, ref):
         """flip one bit of the share data inside a used field; the container header is 12 bytes"""
